@@ -71,10 +71,13 @@ pub struct NoiseTcp(pub(crate) noise::Stream);
 pub struct Tcp(metrics::MeteredStream);
 
 pub async fn tcp_pair(ctx: &ctx::Ctx) -> ctx::Result<(Tcp, Tcp)> {
-    let addr = net::tcp::testonly::reserve_listener();
-    let mut listener = addr.bind(false).map_err(anyhow::Error::from)?;
+    // An ephemeral loopback port (nothing is reserved, so this can be called any number of times).
+    let mut listener: net::tcp::Listener = tokio::net::TcpListener::bind(("127.0.0.1", 0))
+        .await
+        .map_err(anyhow::Error::from)?;
+    let addr = listener.local_addr().map_err(anyhow::Error::from)?;
     let (a, b) = tokio::join!(
-        metrics::MeteredStream::connect(ctx, *addr),
+        metrics::MeteredStream::connect(ctx, addr),
         metrics::MeteredStream::accept(ctx, &mut listener)
     );
     Ok((Tcp(a?), Tcp(b?)))
